@@ -38,6 +38,10 @@ def signature(draw, allow_catch_all=True, allow_deps=True, allow_field=False):
         p = {"name": nm, "kind": kind, "ann": ann, "has_default": has_default}
         if has_default:
             p["default"] = draw(ANN[ann])
+            if ann and draw(st.integers(0, 4)) == 0:
+                # a declared default need not satisfy the annotation (`note: str = None`, `tags: list = ()`): when the payload
+                # omits the parameter the actor receives the default exactly as declared, under every converter
+                p["default"] = draw(st.sampled_from([None, None, (), "", 0]))
             if allow_field and ann is not None and draw(st.integers(0, 2)) == 0:
                 # the default declared the pydantic way: Field(default=...) / Field(default_factory=...)
                 p["field"] = "factory" if isinstance(p["default"], (list, dict)) and draw(st.booleans()) else "default"
